@@ -263,6 +263,62 @@ Definition art_handle (c : acfg) (now : N) (port : aport) (k : apkt) : aport * b
     let data_size := u16 (N.min (k_lenf k) (len (k_data k))) in
     update_port (ac_ltp c) now port (mkA (k_addr k) now (dmx_set (k_data k) data_size)).
 
+(* ------------------------------------------------------------------ the Art-Net node: four output ports *)
+(* ArtNetNodeImpl: m_net_address and m_output_ports[ARTNET_MAX_PORTS]; HandleDataPacket offers every
+   ArtDmx packet to EVERY enabled output port whose universe_address matches (no early exit) *)
+Record nport := mkNP { np_en : bool; np_addr : N; np_ltp : bool; np_port : aport }.
+Record node := mkN { n_net : N; n_ports : list nport }.
+
+Inductive nop :=
+| NData (k : apkt)                       (* an ArtDmx packet *)
+| NEnable (i : nat) (u : N)              (* SetOutputPortUniverse(i, u) *)
+| NDisable (i : nat)                     (* DisableOutputPort(i) *)
+| NMode (i : nat) (ltp : bool)           (* SetMergeMode(i, mode) *)
+| NSubnet (s : N)                        (* SetSubnetAddress(s) *)
+| NNet (n : N).                          (* SetNetAddress(n) *)
+
+Definition init_node : node :=
+  mkN 0 (repeat (mkNP false 0 false init_aport) (N.to_nat ARTNET_MAX_PORTS)).
+
+Definition cfg_of (net : N) (p : nport) : acfg := mkAC net (np_addr p) (np_ltp p).
+
+Definition port_data (net now : N) (p : nport) (k : apkt) : nport * bool :=
+  if np_en p then
+    let r := art_handle (cfg_of net p) now (np_port p) k in
+    (mkNP (np_en p) (np_addr p) (np_ltp p) (fst r), snd r)
+  else (p, false).
+
+Fixpoint upd_nth {A} (i : nat) (f : A -> A) (l : list A) : list A :=
+  match l, i with
+  | [], _ => []
+  | x :: r, O => f x :: r
+  | x :: r, S j => x :: upd_nth j f r
+  end.
+
+(* result: the node and, per port, whether its data callback ran *)
+Definition node_op (now : N) (nd : node) (op : nop) : node * list bool :=
+  let quiet := map (fun _ => false) (n_ports nd) in
+  match op with
+  | NData k =>
+    let r := map (fun p => port_data (n_net nd) now p k) (n_ports nd) in
+    (mkN (n_net nd) (map fst r), map snd r)
+  | NEnable i u =>
+    (mkN (n_net nd)
+         (upd_nth i (fun p =>
+            if (np_en p && (N.land (np_addr p) 15 =? N.land u 15))%bool then p
+            else mkNP true (N.lor (N.land u 15) (N.land (np_addr p) 240)) (np_ltp p) (np_port p))
+          (n_ports nd)), quiet)
+  | NDisable i =>
+    (mkN (n_net nd) (upd_nth i (fun p => mkNP false (np_addr p) (np_ltp p) (np_port p)) (n_ports nd)), quiet)
+  | NMode i ltp =>
+    (mkN (n_net nd) (upd_nth i (fun p => mkNP (np_en p) (np_addr p) ltp (np_port p)) (n_ports nd)), quiet)
+  | NSubnet s =>
+    (mkN (n_net nd)
+         (map (fun p => mkNP (np_en p) (N.lor (u8 (s * 16)) (N.land (np_addr p) 15)) (np_ltp p) (np_port p))
+              (n_ports nd)), quiet)
+  | NNet n => (mkN (N.land n 127) (n_ports nd), quiet)
+  end.
+
 (* ------------------------------------------------------------------ runs over histories *)
 Fixpoint run (c : cfg) (st : ust) (h : list (N * pkt)) : ust :=
   match h with
